@@ -882,6 +882,9 @@ where
         // Result returned by one of the plugins.
         let mut plugin_output = None;
 
+        // Client-given names of the statements a plugin denied in the batch being buffered.
+        let mut denied_statements: Vec<String> = Vec::new();
+
         let client_identifier = ClientIdentifier::new(
             self.server_parameters.get_application_name(),
             &self.username,
@@ -1016,6 +1019,10 @@ where
                         match query_router.parse(&message) {
                             Ok(ast) => {
                                 if let Ok(output) = query_router.execute_plugins(&ast).await {
+                                    if matches!(output, PluginOutput::Deny(_)) {
+                                        denied_statements.push(Parse::get_name(&message)?);
+                                    }
+
                                     // A later Parse in the same batch must not lift a denial.
                                     if !matches!(plugin_output, Some(PluginOutput::Deny(_))) {
                                         plugin_output = Some(output);
@@ -1075,6 +1082,7 @@ where
 
             // Check on plugin results.
             if let Some(PluginOutput::Deny(error)) = plugin_output {
+                self.forget_statements(&mut denied_statements);
                 self.reset_buffered_state();
                 error_response(&mut self.write, &error).await?;
                 plugin_output = None;
@@ -1338,6 +1346,10 @@ where
                         if query_router.query_parser_enabled() {
                             if let Ok(ast) = query_router.parse(&message) {
                                 if let Ok(output) = query_router.execute_plugins(&ast).await {
+                                    if matches!(output, PluginOutput::Deny(_)) {
+                                        denied_statements.push(Parse::get_name(&message)?);
+                                    }
+
                                     // A later Parse in the same batch must not lift a denial.
                                     if !matches!(plugin_output, Some(PluginOutput::Deny(_))) {
                                         plugin_output = Some(output);
@@ -1391,6 +1403,7 @@ where
                             Some(PluginOutput::Deny(error)) => {
                                 error_response(&mut self.write, &error).await?;
                                 plugin_output = None;
+                                self.forget_statements(&mut denied_statements);
                                 self.reset_buffered_state();
                                 continue;
                             }
@@ -2009,6 +2022,14 @@ where
                     client_given_name
                 )))
             }
+        }
+    }
+
+    /// A statement a plugin denied must not stay available under the client's name:
+    /// a later Bind would otherwise prepare and run it on a server.
+    fn forget_statements(&mut self, names: &mut Vec<String>) {
+        for name in names.drain(..) {
+            self.prepared_statements.remove(&name);
         }
     }
 
